@@ -4,7 +4,7 @@
    stage 2 enter through the hook hypothesis [hook_preserves c19_rel hook] ("if [run] only appends
    requests and only pushes peers other than the current one, so does the stream instruction built
    on it"). *)
-From Aqua Require Import Base Json Air Trace Handler Values Scalars Lens Exec RunExec CallSpec ExecInv C19Proofs.
+From Aqua Require Import Base Json Air Trace Handler Values Scalars Lens Exec RunExec ExecStreams CallSpec ExecInv ExecStreamsInv C19Proofs.
 Open Scope N_scope.
 Open Scope list_scope.
 
@@ -27,6 +27,18 @@ Theorem C19_next_peers_not_self_run1 :
     run1 fuel i = OutNewData code d next reqs signed ->
     NoDup next /\ ~ In (rp_current_peer (ri_params i)) next.
 Proof. exact run1_next_peers. Qed.
+
+(* the full interpreter (stage 2: streams, canon with its push of the designated peer, new, stream
+   folds; model/ExecStreams.v): unconditional as well *)
+Theorem C19_exec2 :
+  forall fuel i x y, outcome_ctx (exec stream_instr fuel i x) = Some y -> c19_rel x y.
+Proof. exact exec2_c19. Qed.
+
+Theorem C19_next_peers_not_self_run2 :
+  forall fuel i code d next reqs signed,
+    run2 fuel i = OutNewData code d next reqs signed ->
+    NoDup next /\ ~ In (rp_current_peer (ri_params i)) next.
+Proof. exact run2_next_peers. Qed.
 
 (* 3. a call writes a new RequestSentBy(PeerId p) state exactly when it pushes its target (which is
    not the current peer) to the next peers, and then p is the current peer *)
@@ -101,6 +113,8 @@ Qed.
 Print Assumptions C19_requests_local.
 Print Assumptions C19_next_peers_not_self.
 Print Assumptions C19_next_peers_not_self_run1.
+Print Assumptions C19_exec2.
+Print Assumptions C19_next_peers_not_self_run2.
 Print Assumptions C19_marked_forwarded.
 Print Assumptions C19_call_step.
 Print Assumptions C19_source_tie.
